@@ -16,9 +16,20 @@ sys.path.insert(0, os.path.dirname(HERE))
 
 from conc import common  # noqa: E402  (sets sys.path for the tree under test)
 
-MODULES = {
-    "C14": ["checks_c14"], "C18": ["checks_c18"], "C01": ["checks_c01"],
-}
+def _discover():
+    """checks_c07.py, checks_c07_extra.py ... -> property C07"""
+    import glob
+    import re
+    mods = {}
+    for path in sorted(glob.glob(os.path.join(HERE, "checks_c*.py"))):
+        name = os.path.basename(path)[:-3]
+        m = re.match(r"checks_c(\d\d)", name)
+        if m:
+            mods.setdefault(f"C{m.group(1)}", []).append(name)
+    return mods
+
+
+MODULES = _discover()
 
 
 def load(prop):
